@@ -164,8 +164,15 @@ def make_scenarios(prop, tier, seed):
             sc["probes"]["c13"] = 0   # twins cost seconds each: only the C13 check pays for them
         if prop == "C17" and i % 3 == 0:
             sc["probes"]["c17"] = 500 + i
+        if prop != "C06" and (i % 4 == 2 or (prop == "C14" and i % 2 == 0)):
+            # some jobs start in a further stand-alone buffer that has its own travel-matrix row
+            import random as _random
+            gen.staging_placement(sc, _random.Random(seed * 11 + i))
         if prop in ("C16", "C17"):
             sc["max_steps"] = 5      # these checks are about compilation, not about the episode
+            if i % 2 == 1:
+                import random as _random
+                gen.spread_placement(sc, _random.Random(seed * 7 + i))
         out.append(sc)
     if prop in ("C04", "C18"):
         # directed: the last joker spent exactly on the no-op that finishes the episode
